@@ -92,7 +92,7 @@ def _expand(batch):
     return out, viols, ntrans, nontriv, per_op, det_checked
 
 
-def bfs(spec, ctx, max_depth, batch=8, state_cap=None):
+def bfs(spec, ctx, max_depth, batch=8, state_cap=None, time_cap=None):
     """Run BFS to closure or max_depth. Fills ctx.cov and ctx.violations."""
     global _SPEC
     _SPEC = spec
@@ -125,8 +125,15 @@ def bfs(spec, ctx, max_depth, batch=8, state_cap=None):
     terminal = set()
     known = run.load_known(ctx.prop)
     stopped_on_violation = False
+    import time as _time
+    t_start = _time.time()
+    timed_out = False
     while frontier:
         if depth >= max_depth:
+            break
+        if time_cap and _time.time() - t_start > time_cap:
+            # a level is never cut short: the levels completed so far are fully explored, the search just does not go deeper
+            timed_out = True
             break
         batches = [frontier[i:i + batch] for i in range(0, len(frontier), batch)]
         results = run.pmap(_expand, batches, ctx.jobs)
@@ -162,6 +169,10 @@ def bfs(spec, ctx, max_depth, batch=8, state_cap=None):
             break
     if not frontier and not stopped_on_violation:
         closure = True
+    if capped or timed_out:
+        ctx.cov["cap_hit"] = True
+        ctx.cov.setdefault("caps", []).append("%s: %s after depth %d (%d states); every history of length <= %d over the vocabulary is covered" % (
+            getattr(spec, "name", type(spec).__name__), "time budget of %d s reached" % time_cap if timed_out else "state cap %d reached" % state_cap, depth, len(seen), depth))
     ctx.extend(viols)
     c = ctx.cov
     c["states"] = c.get("states", 0) + len(seen)
@@ -174,7 +185,7 @@ def bfs(spec, ctx, max_depth, batch=8, state_cap=None):
     c.setdefault("bfs_runs", []).append(
         {"name": getattr(spec, "name", type(spec).__name__), "states": len(seen), "transitions": transitions,
          "terminal_states_checked_not_expanded": len(terminal - set(seen)),
-         "closure_reached": closure, "depth_completed": depth, "state_cap_hit": capped, "stopped_after_first_violating_level": stopped_on_violation,
+         "closure_reached": closure, "depth_completed": depth, "state_cap_hit": capped, "time_budget_hit": timed_out, "stopped_after_first_violating_level": stopped_on_violation,
          "per_operation_transitions": per_op})
     c["closure_reached"] = closure and c.get("closure_reached", True)
     c["max_depth"] = max(depth, c.get("max_depth", 0))
